@@ -227,86 +227,8 @@ def clause_b(repo, chk):
             chk.violation("B-loop", fn.key, "y-index", "y[i] is not computed from x[i] of the same index", file=VAR, line=iff.lineno)
     chk.require_count("B-loop", 5)
 
-    # ---- chain-rule formulas (statements after the loop, evaluated symbolically)
-    g, H, dy, d2y, p, y, V, f2 = sp.symbols("g H dy d2y p y V f2")
-
-    def tail_eval(fn, env, after_loop):
-        tr = Translator(repo, hooks={"subscript": lambda tr_, obj, idx, n: obj})
-        body = fn.node.body
-        loop, _ = loop_facts(fn.node)
-        started = False
-        out = None
-        for st in body:
-            if st is loop:
-                started = True
-                continue
-            if not started:
-                continue
-            if isinstance(st, ast.Return):
-                out = tr.eval(st.value, env, fn.mod, 0)
-                break
-            if isinstance(st, ast.Assign):
-                tr.exec_stmt(st, env, fn.mod, 0)
-        return out
-
-    def diag_hook(tr_, d, args, kwargs, n):
-        if d.split(".")[-1] == "diag":
-            return sp.Function("diag")(args[0])
-        return NotImplemented
-
-    # trans_fcn_grad
-    fn = repo.fn("%s::VarsManager.trans_fcn_grad.fcn_t" % VAR)
-    rec = {}
-    env = {"yvals": y, "dydxs": dy, "xvals": sp.Symbol("x"),
-           "fcn_grad": PyFunc(lambda *a: (rec.setdefault("args", a), (sp.Symbol("F"), g))[1])}
-    out = tail_eval(fn, env, True)
-    _chain(chk, fn, "value passes through, grad == g*dy, inner call at y", out, (sp.Symbol("F"), g * dy), rec.get("args"), (y,))
-    # trans_grad_hessp
-    fn = repo.fn("%s::VarsManager.trans_grad_hessp.f_wrap" % VAR)
-    rec = {}
-    env = {"yvals": y, "dydxs": dy, "dydxs2": d2y, "p": p, "xvals": sp.Symbol("x"),
-           "f": PyFunc(lambda *a: (rec.setdefault("args", a), (g, H))[1])}
-    out = tail_eval(fn, env, True)
-    _chain(chk, fn, "grad == g*dy, hessp == H*dy + g*d2y*p, inner call at (y, p*dy)", out, (g * dy, H * dy + g * d2y * p), rec.get("args"), (y, p * dy))
-    # trans_f_grad_hess
-    fn = repo.fn("%s::VarsManager.trans_f_grad_hess.f_wrap" % VAR)
-    rec = {}
-    env = {"yvals": y, "dydxs": dy, "dydxs2": d2y, "xvals": sp.Symbol("x"),
-           "f": PyFunc(lambda *a: (rec.setdefault("args", a), (f2, g, H))[1])}
-    tr_hooks = {"subscript": lambda tr_, obj, idx, n: obj, "numeric_call": diag_hook}
-    tr = Translator(repo, hooks=tr_hooks)
-    loop, _ = loop_facts(fn.node)
-    started, out = False, None
-    for st in fn.node.body:
-        if st is loop:
-            started = True
-            continue
-        if started and isinstance(st, ast.Return):
-            out = tr.eval(st.value, env, fn.mod, 0)
-            break
-        if started and isinstance(st, ast.Assign):
-            tr.exec_stmt(st, env, fn.mod, 0)
-    _chain(chk, fn, "hess == dy*H*dy + diag(g*d2y)", out, (f2, g * dy, dy * H * dy + sp.Function("diag")(g * d2y)), rec.get("args"), (y,))
-    # trans_error_matrix
-    fn = repo.fn("%s::VarsManager.trans_error_matrix" % VAR)
-    env = {"dydxs": [dy], "hess_inv": V, "xvals": sp.Symbol("x")}
-    tr = Translator(repo, hooks={"subscript": lambda tr_, obj, idx, n: obj})
-    loop, _ = loop_facts(fn.node)
-    started, out = False, None
-    for st in fn.node.body:
-        if st is loop:
-            started = True
-            continue
-        if started and isinstance(st, ast.Return):
-            out = tr.eval(st.value, env, fn.mod, 0)
-            break
-        if started and isinstance(st, ast.Assign):
-            # dydx = np.array(dydxs): a python list here; model it as the symbol dy
-            if isinstance(st.value, ast.Call) and norm_text(st.value.func) in ("np.array", "numpy.array") and isinstance(st.value.args[0], ast.Name) and st.value.args[0].id == "dydxs":
-                env[st.targets[0].id] = dy
-            else:
-                tr.exec_stmt(st, env, fn.mod, 0)
-    _chain(chk, fn, "V_y == dy*V*dy", (out,), (dy * V * dy,), None, None)
+    # ---- chain-rule formulas (statements after the loop, evaluated on a 2-parameter component model)
+    chain_formulas(repo, chk)
 
     # ---- Bound slots
     gf = repo.fn("%s::Bound.get_func" % VAR)
@@ -352,37 +274,186 @@ def clause_b(repo, chk):
     chk.require_count("B-slots", 5)
 
 
-def _chain(chk, fn, text, out, want, call_args, want_args):
-    if out is None:
-        raise AnalysisError("%s: no return after the transform loop" % fn.key)
-    out = tuple(out) if isinstance(out, (tuple, list)) else (out,)
-    ok = len(out) == len(want)
-    detail = ""
-    if ok:
-        for a, b in zip(out, want):
-            v, d = equal(sp.sympify(a), sp.sympify(b))
-            if v is None:
-                raise AnalysisError("%s: normaliser too weak: %s" % (fn.key, d))
-            if not v:
-                ok = False
-                detail = "returned %s, chain rule requires %s" % (a, b)
-    if ok and want_args is not None:
-        if call_args is None or len(call_args) != len(want_args):
-            ok = False
-            detail = "inner function called with %s" % (call_args,)
+def _arr(*names):
+    import numpy as np
+
+    return np.array([sp.Symbol(n) for n in names], dtype=object)
+
+
+def chain_formulas(repo, chk, only=None):
+    """E6 on a two-parameter component model: dy=(d1,d2), d2y=(e1,e2), g=(g1,g2), H 2x2, p=(p1,p2), V 2x2."""
+    import numpy as np
+
+    dy, d2y, g, pp, y = _arr("d1", "d2"), _arr("e1", "e2"), _arr("g1", "g2"), _arr("p1", "p2"), _arr("y1", "y2")
+    H = np.array([[sp.Symbol("h11"), sp.Symbol("h12")], [sp.Symbol("h21"), sp.Symbol("h22")]], dtype=object)
+    V = np.array([[sp.Symbol("v11"), sp.Symbol("v12")], [sp.Symbol("v21"), sp.Symbol("v22")]], dtype=object)
+    hp = _arr("hp1", "hp2")
+    F = sp.Symbol("F")
+
+    def tail(fn, env):
+        tr = Translator(repo, hooks={"stack_as_array": True})
+        loop, _ = loop_facts(fn.node)
+        started, out = False, None
+        for st in fn.node.body:
+            if st is loop:
+                started = True
+                continue
+            if not started:
+                continue
+            if isinstance(st, ast.Return):
+                out = tr.eval(st.value, env, fn.mod, 0)
+                break
+            if isinstance(st, ast.Assign):
+                try:
+                    tr.exec_stmt(st, env, fn.mod, 0)
+                except Unmodelled as e:
+                    raise AnalysisError("%s: statement after the transform loop not modelled: %s" % (fn.key, e))
+        return out
+
+    def cmp(fn, text, got, want, call_args=None, want_args=None):
+        import numpy as np
+
+        def flat(x):
+            if isinstance(x, (tuple, list)):
+                r = []
+                for i in x:
+                    r.extend(flat(i))
+                return r
+            if isinstance(x, np.ndarray):
+                return [sp.sympify(v) for v in x.ravel()] + [sp.Integer(k) for k in x.shape]
+            return [sp.sympify(x)]
+
+        ok, detail = True, ""
+        a, b = flat(got), flat(want)
+        if len(a) != len(b):
+            ok, detail = False, "shape/arity differs: %s vs %s" % (got, want)
         else:
-            for a, b in zip(call_args, want_args):
-                v, d = equal(sp.sympify(a), sp.sympify(b))
-                if not v:
-                    ok = False
-                    detail = "inner function evaluated at %s, chain rule requires %s" % (a, b)
-    chk.instance("B-chain", "%s: %s -> %s" % (fn.key, text, "ok" if ok else "FAIL " + detail))
-    if not ok:
-        chk.violation("B-chain", fn.key, "formula", "%s violated: %s" % (text, detail), file=VAR, line=fn.lineno)
+            for u, v in zip(a, b):
+                e, d = equal(u, v)
+                if e is None:
+                    raise AnalysisError("%s: normaliser too weak: %s" % (fn.key, d))
+                if not e:
+                    ok, detail = False, "component %s, chain rule requires %s" % (u, v)
+                    break
+        if ok and want_args is not None:
+            ca, wa = flat(list(call_args or [])), flat(list(want_args))
+            if len(ca) != len(wa) or not all(equal(u, v)[0] for u, v in zip(ca, wa)):
+                ok, detail = False, "inner function evaluated at %s, chain rule requires %s" % (call_args, want_args)
+        chk.instance("B-chain", "%s: %s -> %s" % (fn.key, text, "ok" if ok else "FAIL " + detail))
+        if not ok:
+            chk.violation("B-chain", fn.key, "formula", "%s violated: %s" % (text, detail), file=VAR, line=fn.lineno)
+
+    if only in (None, "grad"):
+        fn = repo.fn("%s::VarsManager.trans_fcn_grad.fcn_t" % VAR)
+        rec = {}
+        env = {"yvals": y, "dydxs": dy, "fcn_grad": PyFunc(lambda *a: (rec.setdefault("args", a), (F, g))[1])}
+        out = tail(fn, env)
+        cmp(fn, "value passes through, grad_i == g_i*dy_i, inner call at y", out, (F, g * dy), rec.get("args"), (y,))
+    if only in (None, "hessp"):
+        fn = repo.fn("%s::VarsManager.trans_grad_hessp.f_wrap" % VAR)
+        rec = {}
+        env = {"yvals": y, "dydxs": dy, "dydxs2": d2y, "p": pp, "f": PyFunc(lambda *a: (rec.setdefault("args", a), (g, hp))[1])}
+        out = tail(fn, env)
+        cmp(fn, "grad_i == g_i*dy_i, hessp_i == Hp_i*dy_i + g_i*d2y_i*p_i, inner call at (y, p*dy)", out, (g * dy, hp * dy + g * d2y * pp), rec.get("args"), (y, pp * dy))
+    if only in (None, "hess"):
+        fn = repo.fn("%s::VarsManager.trans_f_grad_hess.f_wrap" % VAR)
+        rec = {}
+        env = {"yvals": y, "dydxs": dy, "dydxs2": d2y, "f": PyFunc(lambda *a: (rec.setdefault("args", a), (F, g, H))[1])}
+        out = tail(fn, env)
+        want_h = np.array([[dy[i] * H[i, j] * dy[j] + (g[i] * d2y[i] if i == j else 0) for j in range(2)] for i in range(2)], dtype=object)
+        cmp(fn, "hess_ij == dy_i*H_ij*dy_j + delta_ij*g_i*d2y_i", out, (F, g * dy, want_h), rec.get("args"), (y,))
+    if only in (None, "cov"):
+        fn = repo.fn("%s::VarsManager.trans_error_matrix" % VAR)
+        env = {"dydxs": dy, "hess_inv": V, "xvals": y}
+        out = tail(fn, env)
+        want_v = np.array([[dy[i] * V[i, j] * dy[j] for j in range(2)] for i in range(2)], dtype=object)
+        cmp(fn, "V_y[i,j] == dy_i*V_ij*dy_j (rows and columns scaled)", out, want_v)
+
+
+# --------------------------------------------------------------------------- (c)
+FRESH = [
+    ("tf_pwa/model/model.py::BaseModel.grad_hessp_batch", "hess_product_vector_i", "p"),
+    ("tf_pwa/model/opt_int.py::ModelCachedAmp.grad_hessp_batch", "hess_product_vector_i", "p"),
+]
+
+
+def clause_c(repo, chk):
+    """a buffer created lazily from a per-call argument must be refreshed from that argument on every call"""
+    from ..cfg import CFG, forward, witness_path
+
+    chk.rule("C-fresh", "a lazily created per-call buffer (if not hasattr(self, X): self.X = f(arg)) is re-filled from `arg` on every path before it is used (a stale direction vector makes the Hessian-vector product wrong from the second call on)")
+    # discover the pattern so that a new instance cannot hide
+    found = set()
+    for rel in ("tf_pwa/model/model.py", "tf_pwa/model/opt_int.py", "tf_pwa/model/cfit.py", "tf_pwa/model/custom.py"):
+        m = repo.mod(rel)
+        for f in m.funcs.values():
+            for n in walk_local(f.node):
+                if isinstance(n, ast.If) and norm_text(n.test).startswith("not hasattr(self,"):
+                    found.add(f.key)
+    for key, attr, par in FRESH:
+        fn = repo.fn(key)
+        if par not in fn.all_param_names():
+            raise AnalysisError("%s lost its parameter %s" % (key, par))
+        found.discard(key)
+        cfg = CFG(fn.node)
+
+        def mentions(node_ast, name_attr=attr, name_par=par):
+            has_attr = any(isinstance(x, ast.Attribute) and x.attr == name_attr for x in ast.walk(node_ast))
+            has_par = any(isinstance(x, ast.Name) and x.id == name_par for x in ast.walk(node_ast))
+            return has_attr, has_par
+
+        def scan(node):
+            a = node.ast
+            if a is None or node.kind in ("with_exit", "handler"):
+                return None
+            if node.kind == "test":
+                return a.test
+            if node.kind == "for":
+                return ast.Tuple(elts=[a.iter, a.target], ctx=ast.Load())
+            if isinstance(a, (ast.FunctionDef, ast.ClassDef)):
+                return None
+            return a
+
+        def transfer(node, state, kind):
+            if kind in ("exc", "gen"):
+                return [state]
+            sc = scan(node)
+            if sc is None:
+                return [state]
+            has_attr, has_par = mentions(sc)
+            is_guard = node.kind == "test" and norm_text(sc).startswith("not hasattr(self,")
+            if has_attr and has_par and not is_guard:
+                return ["fresh"]
+            return [state]
+
+        at, wit = forward(cfg, "stale", transfer)
+        bad = None
+        n_use = 0
+        for node in cfg.nodes:
+            sc = scan(node)
+            if sc is None:
+                continue
+            has_attr, has_par = mentions(sc)
+            is_guard = node.kind == "test" and norm_text(sc).startswith("not hasattr(self,")
+            if has_attr and not has_par and not is_guard:
+                n_use += 1
+                if "stale" in at[node.id]:
+                    bad = (node, witness_path(cfg, wit, node.id, "stale"))
+                    break
+        chk.instance("C-fresh", "%s: self.%s refreshed from `%s` before each of its %d uses: %s" % (key, attr, par, n_use, bad is None))
+        if n_use == 0:
+            raise AnalysisError("%s: no use of self.%s found" % (key, attr))
+        if bad is not None:
+            node, path = bad
+            chk.violation("C-fresh", key, "stale:%s" % attr, "self.%s is used at `%s` on a path where it was not re-filled from the argument `%s` (only when it is first created): path %s" % (attr, norm_text(node.ast)[:60], par, " -> ".join(path[-8:])), file=key.split("::")[0], line=node.lineno, path=path)
+    for key in sorted(found):
+        chk.info("lazily initialised attribute in %s is not on the frozen C-fresh list" % key)
+    chk.require_count("C-fresh", 2)
 
 
 def run(repo, chk, tier):
     chk.assume("tensor shapes are abstracted: x[:, None] / x[None, :] are identities, products commute (diagonal scalings)")
     clause_a(repo, chk)
     clause_b(repo, chk)
+    clause_c(repo, chk)
     chk.require_count("B-chain", 4)
